@@ -58,6 +58,7 @@ type Term struct {
 
 // TermStore hash-conses terms for one path execution.
 type TermStore struct {
+	ktab  map[termKey]*Term
 	tab   map[string]*Term
 	next  int
 	vars  []*Term          // declared variables in creation order
@@ -77,7 +78,7 @@ type ufDecl struct {
 }
 
 func NewTermStore() *TermStore {
-	return &TermStore{tab: map[string]*Term{}, ufs: map[string]*ufDecl{}}
+	return &TermStore{tab: map[string]*Term{}, ktab: map[termKey]*Term{}, ufs: map[string]*ufDecl{}}
 }
 
 func mask(w int) uint64 {
@@ -87,7 +88,39 @@ func mask(w int) uint64 {
 	return (uint64(1) << uint(w)) - 1
 }
 
+type termKey struct {
+	op      string
+	name    string
+	sk      SortKind
+	w       int
+	p0, p1  int
+	c       uint64
+	isConst bool
+	n       int
+	a0, a1, a2 int
+}
+
 func (ts *TermStore) mk(op string, s Sort, p [2]int, name string, c uint64, isConst bool, args ...*Term) *Term {
+	if len(args) <= 3 {
+		k := termKey{op: op, name: name, sk: s.K, w: s.W, p0: p[0], p1: p[1], c: c, isConst: isConst, n: len(args)}
+		switch len(args) {
+		case 3:
+			k.a2 = args[2].id
+			fallthrough
+		case 2:
+			k.a1 = args[1].id
+			fallthrough
+		case 1:
+			k.a0 = args[0].id
+		}
+		if t, ok := ts.ktab[k]; ok {
+			return t
+		}
+		ts.next++
+		t := &Term{Op: op, S: s, Args: args, C: c, IsConst: isConst, Name: name, P: p, id: ts.next}
+		ts.ktab[k] = t
+		return t
+	}
 	var sb strings.Builder
 	sb.WriteString(op)
 	fmt.Fprintf(&sb, "|%d.%d|%d.%d|%s|", s.K, s.W, p[0], p[1], name)
